@@ -454,10 +454,15 @@ func (sc *Scenario) explore(a schedArg) (out schedOut) {
 			}
 			x := sc.runSchedule(prefix, prefixN, hb, nil, false)
 			check(&x, prefix, seq)
-			outcomes[HashStr(outcomeKey(x.res, x.final))] = true
-			if len(out.Sample) < 3 {
-				c, _ := choicesOf(x.points, len(x.points))
-				out.Sample = append(out.Sample, fmt.Sprintf("schedule %v -> %s", c, clipStr(outcomeKey(x.res, ""), 300)))
+			if x.deadlock || x.abort != "" {
+				// the threads were unwound, their result slots are not synchronised with this goroutine
+				outcomes["aborted"] = true
+			} else {
+				outcomes[HashStr(outcomeKey(x.res, x.final))] = true
+				if len(out.Sample) < 3 {
+					c, _ := choicesOf(x.points, len(x.points))
+					out.Sample = append(out.Sample, fmt.Sprintf("schedule %v -> %s", c, clipStr(outcomeKey(x.res, ""), 300)))
+				}
 			}
 			if out.Infra != "" {
 				return
